@@ -5,6 +5,21 @@ import time
 from . import core, frames
 
 
+def _only_called_locally(outer_node, name):
+    """Every use of the nested function `name` inside `outer_node` is a
+    direct call name(...)."""
+    called = set()
+    for n in ast.walk(outer_node):
+        if isinstance(n, ast.Call) and isinstance(n.func, ast.Name) and \
+                n.func.id == name:
+            called.add(id(n.func))
+    for n in ast.walk(outer_node):
+        if isinstance(n, ast.Name) and n.id == name and isinstance(
+                n.ctx, ast.Load) and id(n) not in called:
+            return False
+    return True
+
+
 def frame_unit(pid, extra=None):
     def run(ctx):
         from contracts import frames_spec as FS
@@ -24,6 +39,20 @@ def frame_unit(pid, extra=None):
                 if fi.qualname.split('.')[-1] == '__init__' and \
                         o == ('SELF',):
                     continue
+                if o[0] == 'NONLOCAL' and what != 'rebind' and \
+                        '.<locals>.' in fi.qualname:
+                    # a closure writing an object that is FRESH in its
+                    # enclosing activation: confined to that activation
+                    outer = P.funcs.get('%s.%s' % (
+                        fi.module, fi.qualname.rsplit('.<locals>.', 1)[0]))
+                    if outer is not None and _only_called_locally(
+                            outer.node, fi.node.name):
+                        # (a closure that ESCAPES - returned, stored, passed
+                        # on - keeps the object alive across its calls: that
+                        # is shared state and stays an obligation)
+                        oo = outer.all_origins.get(o[1])
+                        if oo and all(x == frames.FRESH for x in oo):
+                            continue
                 tag = frames.fmt(o)
                 if tag in allowed or (tag + ':' + what) in allowed or (
                         what.startswith('via ') and
